@@ -120,8 +120,11 @@ int RePair::extractStringAndCompareRP(uint id, uchar *str, uint strLen) {
       if (cmp != 0)
         break;
     } else {
-      if ((uchar)next != str[pos])
-        return (int)((uchar)next - str[pos]);
+      if ((uchar)next != str[pos]) {
+        // (leave through the common exit: the sentinel must be removed)
+        cmp = (int)((uchar)next - str[pos]);
+        break;
+      }
       pos++;
     }
 
